@@ -124,7 +124,10 @@ pub fn run(ctx: &mut Ctx) {
                     continue;
                 }
                 let mut r = Rng::derive(ctx.seed, &[10, case]);
-                let mut s = gen::snap(&mut r, &StateOpts { vals: Vals::Small, max_depth: 3, graphs: true, io: true, bindings: true, flags: var % 3 == 0, random_cfg: false }, &names);
+                // a third of the variations use boundary / arbitrary operand VALUES (size-like operands
+                // are pulled back into the envelope below)
+                let vals = if var % 3 == 2 { Vals::Mixed } else { Vals::Small };
+                let mut s = gen::snap(&mut r, &StateOpts { vals, max_depth: 3, graphs: true, io: true, bindings: true, flags: var % 3 == 0, random_cfg: var % 6 == 5 }, &names);
                 // size-like operands stay tiny (Vals::Small gives |v| <= 12)
                 let mut p = pat;
                 let mut desc = String::new();
@@ -135,6 +138,17 @@ pub fn run(ctx: &mut Ctx) {
                     let depth = if d == *n { d + r.below(3) } else { d };
                     truncate(&mut s, *st, depth, &mut r, &names);
                     desc.push_str(&format!("{:?}={} ", st, depth));
+                }
+                // capacity boundaries of the fixed-size buffers: a full GRAPH stack (100), a full INPUT
+                // queue (10) and a full OUTPUT queue (3), with positions / depths at and beyond them
+                if var % 10 == 9 && (name.starts_with("GRAPH.") || name.starts_with("INPUT.") || name.starts_with("OUTPUT.")) {
+                    let g0 = gen::sgraph_spec(&mut r, Vals::Small);
+                    s.g = (0..100).map(|_| g0.clone()).collect();
+                    s.inp = (0..10).map(|j| (vec![j], vec![j % 2 == 0])).collect();
+                    s.out = (0..3).map(|j| (vec![j], vec![true])).collect();
+                    if !s.i.is_empty() {
+                        s.i[0] = *r.pick(&[99, 100, 101, 150, i32::MAX]);
+                    }
                 }
                 // guard-failing values, now and then
                 if var % 4 == 1 && !s.i.is_empty() {
@@ -147,6 +161,16 @@ pub fn run(ctx: &mut Ctx) {
                     s.i[0] = -s.i[0];
                 }
                 let mut st = build_state(&s);
+                if !crate::props::c01::envelope_ok(name, &st) {
+                    let v = r.range(0, 12) as i32;
+                    if name.starts_with("LIST.NEIGHBOR*") && name != "LIST.NEIGHBOR*IDS" {
+                        if let Some(x) = st.int_stack.get_mut(1) {
+                            *x = v;
+                        }
+                    } else if let Some(x) = st.int_stack.get_mut(0) {
+                        *x = v;
+                    }
+                }
                 ctx.rec.case_marker(case, name);
                 let ev = judged_step("C10", name, &mut st, &mut is, &cache, &mut ctx.rec, judge, &format!("pattern: {}", desc));
                 ctx.rec.count("steps", 1);
